@@ -285,7 +285,13 @@ class Ranges:
                 out.append((ca, rb[0], tr[1])); out.append((cb, tr[0], ra[1]))
             elif op == 'Eq':
                 out.append((ca, rb[0], rb[1])); out.append((cb, ra[0], ra[1]))
-            elif op == 'Ne':
+            # |x| <= c  =>  -c <= x <= c   (x.unsigned_abs() / x.abs() compared with a bound)
+            for (cc, lo_, hi_) in list(out):
+                if isinstance(cc, tuple) and cc and cc[0] == 'call' and str(cc[1]).rsplit('::', 1)[-1] in ('unsigned_abs', 'abs') and hi_ != INF and hi_ >= 0:
+                    ct_ = B.blocks[cc[2]]['t']
+                    if ct_['k'] == 'call' and ct_['args']:
+                        out.append((canon(B, ct_['args'][0]), -hi_, hi_))
+            if op == 'Ne':
                 # only useful at range ends: x != 0 with x >= 0  =>  x >= 1
                 if rb[0] == rb[1]:
                     if ra[0] == rb[0]:
